@@ -146,6 +146,11 @@ CASES = [
     ("m-c19-no-reset", "C19", "fire", "xdis/codetype/code15.py", "                co_lnotab += chr(255)\n                offset_diff = 0\n                line_diff -= 255", "                co_lnotab += chr(255)\n                line_diff -= 255", "conservation:address"),
     ("m-c19-chunk-254", "C19", "fire", "xdis/codetype/code30.py", "                co_lnotab += bytearray([offset_diff, 255])\n                offset_diff = 0\n                line_diff -= 255", "                co_lnotab += bytearray([offset_diff, 255])\n                offset_diff = 0\n                line_diff -= 256", "conservation:line"),
     ("s-c19-chunk-200", "C19", "silent", "xdis/codetype/code15.py", "            while offset_diff >= 256:\n                co_lnotab += chr(255)\n                co_lnotab += chr(0)\n                offset_diff -= 255", "            while offset_diff >= 256:\n                co_lnotab += chr(200)\n                co_lnotab += chr(0)\n                offset_diff -= 200", ""),
+    ("m-c12-ternary-offbyone", "C12", "fire", "xdis/opcodes/format/extended.py", "            stack_inst3 = instructions[k]", "            stack_inst3 = instructions[k + 1]", "index:instructions[k + 1]"),
+    ("m-c12-lookup-unchecked", "C12", "fire", "xdis/opcodes/format/extended.py", "            i = get_instruction_index_from_offset(arg1_start_offset, instructions, 1)\n            if i is None:\n                return \"\", None\n        j = skip_cache(instructions, i + 1)",
+     "            i = get_instruction_index_from_offset(arg1_start_offset, instructions, 1)\n        j = skip_cache(instructions, i + 1)", "lookup-result"),
+    ("m-c12-call-unguarded", "C12", "fire", "xdis/opcodes/format/extended.py", "    assert i is not None\n    if i >= len(instructions) - 1:\n        return \"\", None\n", "    assert i is not None\n", "index:instructions[i + 1]"),
+    ("m-c01-pypy-ident-bytes", "C01", "fire", "xdis/unmarshal.py", "            co_filename = self.r_object(bytes_for_s=False)\n            co_name = self.r_object(bytes_for_s=False)", "            co_filename = self.r_object(bytes_for_s=bytes_for_s)\n            co_name = self.r_object(bytes_for_s=bytes_for_s)", "bytes_for_s:filename"),
 ]
 
 
